@@ -21,6 +21,7 @@ func init() {
 		},
 		Run: runC35,
 		Controls: []Control{
+			{Name: "last-hop-read-from-a-path-that-may-be-empty", File: "util/dijkstra/dijkstra.go", Old: "\t\t\tif spt[from].Distance+distance < spt[neighbor].Distance {\n", New: "\t\t\tif e := spt[neighbor].Edges; spt[from].Distance+distance == spt[neighbor].Distance && e[len(e)-1].NodeA == from {\n\t\t\t\tcontinue\n\t\t\t}\n\t\t\tif spt[from].Distance+distance < spt[neighbor].Distance {\n", Expect: "index-in-bounds"},
 			{Name: "isolated-source-returned-unseeded", File: "util/dijkstra/dijkstra.go", Old: "\tspt := t.newSPT()\n\n\ttmp := spt[from]\n", New: "\tspt := t.newSPT()\n\tif len(t.edges[from]) == 0 {\n\t\treturn spt\n\t}\n\n\ttmp := spt[from]\n", Expect: "source-has-distance-zero"},
 			{Name: "spt-seeds-source-in-topology", File: "util/dijkstra/dijkstra.go", Old: "\tspt := t.newSPT()\n", New: "\tt.nodes[from] = 0\n\tspt := t.newSPT()\n", Expect: "spt-leaves-topology-untouched"},
 			{Name: "selection-takes-unreached-candidate", File: "util/dijkstra/dijkstra.go", Old: "\t\t\tif spt[candidate].Distance == -1 {\n\t\t\t\tcontinue\n\t\t\t}\n", New: "", Expect: "dijkstra-selection"},
@@ -39,6 +40,7 @@ func init() {
 func runC35(c *core.Ctx) {
 	sptReadsTopologyOnly(c)
 	sourceSeededOnEveryPath(c)
+	dijkstraIndexOps(c)
 	p := c.P
 	fns := p.FuncsIn("util/dijkstra")
 	if len(fns) == 0 {
@@ -520,4 +522,83 @@ func sourceSeededOnEveryPath(c *core.Ctx) {
 		return true
 	})
 	c.Check(zero, rule, f.Name()+" gives the source distance 0", f.Decl.Pos(), "the entry stored for the source does not get Distance = 0")
+}
+
+// dijkstraIndexOps: every index/slice operation of util/dijkstra on a slice is discharged by the structural bounds rules
+// or the linear bounds domain (the "never panics" clause): e.g. `p.Edges[len(p.Edges)-1]` needs len(p.Edges) ≥ 1 on
+// every path — the source's own path is empty.
+func dijkstraIndexOps(c *core.Ctx) {
+	const rule = "index-in-bounds"
+	p := c.P
+	n := 0
+	for _, f := range p.FuncsIn("util/dijkstra") {
+		if f.Decl.Body == nil || isTestFn(p, f) {
+			continue
+		}
+		for _, o := range core.PanicOps(f) {
+			if o.Kind != "index" && o.Kind != "slice" {
+				continue
+			}
+			if ie, ok := o.Node.(*ast.IndexExpr); ok {
+				if t := f.Pkg.TypesInfo.TypeOf(ie.X); t != nil {
+					if _, isMap := t.Underlying().(*types.Map); isMap {
+						continue
+					}
+				}
+			}
+			n++
+			c.Analysed(f)
+			construct := fmt.Sprintf("%s %s #%d %s", f.Name(), o.Kind, o.Ord, exprOfNode(o.Node))
+			if ok, why := p.DischargeIndexSlice(o); ok {
+				c.Hold(rule, construct, o.Node.Pos(), why)
+				continue
+			}
+			if dijkstraMadeWithRoom(f, o.Node) {
+				c.Hold(rule, construct, o.Node.Pos(), "the slice was made with length n+1 in the same block and is indexed with n")
+				continue
+			}
+			ok, why, _ := p.LinearDischarge(f, o.Node)
+			c.Check(ok, rule, construct, o.Node.Pos(), "index/slice operation not shown to be in bounds ("+why+"): the shortest-path computation can panic on some graph (a path with no edges — the source's own — has no last element)")
+		}
+	}
+	c.Check(n >= 1, rule, "index operations found", 0, "no slice index operation in util/dijkstra")
+}
+
+// dijkstraMadeWithRoom: x.F[len(E)] = … where the closest preceding statement in the same block assigning x.F is
+// x.F = make(T, len(E)+1).
+func dijkstraMadeWithRoom(f *core.Fn, node ast.Node) bool {
+	ie, ok := node.(*ast.IndexExpr)
+	if !ok {
+		return false
+	}
+	found := false
+	ast.Inspect(f.Decl.Body, func(n ast.Node) bool {
+		blk, ok := n.(*ast.BlockStmt)
+		if !ok {
+			return true
+		}
+		var lastMake ast.Expr
+		for _, st := range blk.List {
+			as, isAs := st.(*ast.AssignStmt)
+			if isAs && len(as.Lhs) == 1 && len(as.Rhs) == 1 {
+				if core.SameExpr(f.Pkg, core.Unparen(as.Lhs[0]), core.Unparen(ie.X)) {
+					lastMake = nil
+					if call, isCall := core.Unparen(as.Rhs[0]).(*ast.CallExpr); isCall && len(call.Args) >= 2 {
+						if id, isId := call.Fun.(*ast.Ident); isId && id.Name == "make" {
+							lastMake = call.Args[1]
+						}
+					}
+				}
+				if core.NodeHas(as, func(x ast.Node) bool { return x == ast.Node(ie) }) && lastMake != nil {
+					if be, isBin := core.Unparen(lastMake).(*ast.BinaryExpr); isBin && be.Op == token.ADD {
+						if v := core.ConstOf(f.Pkg, be.Y); v != nil && v.ExactString() == "1" && core.SameExpr(f.Pkg, core.Unparen(be.X), core.Unparen(ie.Index)) {
+							found = true
+						}
+					}
+				}
+			}
+		}
+		return true
+	})
+	return found
 }
